@@ -226,13 +226,46 @@ var (
 type nthread struct {
 	wake chan struct{}
 	done bool
+	goid uint64
+}
+
+// goid identifies the calling goroutine (parsed from the stack header; replay-only code).
+func goid() uint64 {
+	var buf [64]byte
+	n := runtime.Stack(buf[:], false)
+	// "goroutine 123 [running]:"
+	var id uint64
+	for _, c := range buf[len("goroutine "):n] {
+		if c < '0' || c > '9' {
+			break
+		}
+		id = id*10 + uint64(c-'0')
+	}
+	return id
+}
+
+// registered reports whether the caller is one of the scheduler's threads.
+// Goroutines that the repository spawns itself (probe goroutines, janitors)
+// are not: for them scheduling points are no-ops and locks are plain locks.
+func registered() bool {
+	g := goid()
+	schedMu.Lock()
+	defer schedMu.Unlock()
+	for _, t := range schedTh {
+		if t.goid == g {
+			return true
+		}
+	}
+	return false
 }
 
 // SeedSchedule resets the cooperative scheduler for one attempt.
 func SeedSchedule(seed uint64) {
 	schedRand = seed*2862933555777941757 + 3037000493
-	main := &nthread{wake: make(chan struct{}, 1)}
+	main := &nthread{wake: make(chan struct{}, 1), goid: goid()}
+	schedMu.Lock()
 	schedTh = []*nthread{main}
+	schedMu.Unlock()
 	schedCur = main
 	thPanic = atomic.Value{}
 }
@@ -248,7 +281,10 @@ func schedNext() uint64 {
 func schedSwitch(excludeSelf bool) {
 	me := schedCur
 	var live []*nthread
-	for _, t := range schedTh {
+	schedMu.Lock()
+	all := append([]*nthread{}, schedTh...)
+	schedMu.Unlock()
+	for _, t := range all {
 		if !t.done && !(excludeSelf && t == me) {
 			live = append(live, t)
 		}
@@ -285,8 +321,13 @@ func Go(f func()) {
 		return
 	}
 	t := &nthread{wake: make(chan struct{}, 1)}
-	schedTh = append(schedTh, t)
+	ready := make(chan struct{})
 	go func() {
+		t.goid = goid()
+		schedMu.Lock()
+		schedTh = append(schedTh, t)
+		schedMu.Unlock()
+		close(ready)
 		<-t.wake
 		defer func() {
 			if r := recover(); r != nil {
@@ -297,11 +338,12 @@ func Go(f func()) {
 		}()
 		f()
 	}()
+	<-ready
 	schedSwitch(false)
 }
 
 func Yield() {
-	if !Scheduled {
+	if !Scheduled || !registered() {
 		runtime.Gosched()
 		return
 	}
@@ -320,7 +362,7 @@ type rlocker interface {
 
 // Lock is what the replay overlay turns `x.Lock()` statements into.
 func Lock(m locker) {
-	if !Scheduled {
+	if !Scheduled || !registered() {
 		m.Lock()
 		return
 	}
@@ -335,7 +377,7 @@ func Lock(m locker) {
 
 // RLock is what the replay overlay turns `x.RLock()` statements into.
 func RLock(m rlocker) {
-	if !Scheduled {
+	if !Scheduled || !registered() {
 		m.RLock()
 		return
 	}
@@ -360,7 +402,9 @@ var (
 
 func Rendezvous(n int) {
 	if Scheduled {
-		schedSwitch(false)
+		if registered() {
+			schedSwitch(false)
+		}
 		return
 	}
 	rvMu.Lock()
@@ -390,7 +434,10 @@ func WaitAll() {
 	} else {
 		for {
 			alive := false
-			for _, t := range schedTh[1:] {
+			schedMu.Lock()
+			others := append([]*nthread{}, schedTh[1:]...)
+			schedMu.Unlock()
+			for _, t := range others {
 				if !t.done {
 					alive = true
 				}
